@@ -86,7 +86,7 @@ def run_cfg(ctx, p, cfg):
                     for lab in ("Err", "Break"):
                         t = si.target_of(lab)
                         if t is not None:
-                            hit = oks & f.reach(t, include_src=True)
+                            hit = q.const_skipping_paths(f, t, set(), oks) | ({t} & oks)      # flags and Option/Result values set on the way decide the switches on them
                             if hit:
                                 leaks.append((blk["id"], sorted(hit)))
                 # the one documented tolerance: a rename whose source does not exist (a missing intermediate archive)
@@ -154,7 +154,7 @@ def run_cfg(ctx, p, cfg):
                     for lab in ("Err", "Break"):
                         t = si.target_of(lab)
                         if t is not None:
-                            hit = oks & f.reach(t, include_src=True)
+                            hit = q.const_skipping_paths(f, t, set(), oks) | ({t} & oks)      # flags and Option/Result values set on the way decide the switches on them
                             if hit:
                                 leaks.append((blk["id"], sorted(hit)))
                 r.require(not leaks, "step-error-reaches-the-caller:%s/%s" % (path.rsplit("::", 1)[-1], common.role(c)), fn=f, site=c.at,
